@@ -72,80 +72,93 @@ def check(ctx):
 
 
 def check_axes(ctx):
-    # normalize
+    VEC = 'attr:Orientations.vectors'
+    # normalize: every vector divided by its own length (norm over xyz, broadcast back along xyz)
     fn = ctx.fn(f'{OR}.normalize')
-    norms = [n for n in ast.walk(fn.node) if isinstance(n, ast.Call) and norm_text(n.func).endswith('linalg.norm')]
-    if not norms:
-        ctx.ob('R2', fn, 'normalisation', None, 'norm call not found')
-    for n in norms:
-        kw = {k.arg: k.value for k in n.keywords}
-        ax = kw.get('axis')
-        kd = kw.get('keepdims')
-        axv = ast.literal_eval(ax) if ax is not None and isinstance(ax, (ast.Constant, ast.UnaryOp)) else None
-        ok = axv in (-1, 2) and kd is not None and isinstance(kd, ast.Constant) and kd.value is True
-        arg_ok = n.args and norm_text(n.args[0]) == 'self.vectors'
-        # the quotient
-        par_ok = any(isinstance(b, ast.BinOp) and isinstance(b.op, ast.Div) and b.right is n and norm_text(b.left) == 'self.vectors'
-                     for b in ast.walk(fn.node))
-        ctx.ob('R2', fn, n, True if (ok and arg_ok and par_ok) else False,
-               'vectors / |vectors| over xyz with keepdims' if (ok and arg_ok and par_ok) else
+    itn = ctx.entry(fn.qualname)
+    quot = []
+    for n in ast.walk(fn.node):
+        if isinstance(n, ast.BinOp) and isinstance(n.op, ast.Div) or (isinstance(n, ast.Call) and norm_text(n.func).split('.')[-1] in ('divide', 'true_divide')):
+            v = itn.value_of(n)
+            if v is not None and v.bin is not None and v.bin[0] == '/' and v.bin[2] is not None and v.bin[2].norm_of is not None:
+                quot.append((n, v))
+    if not quot:
+        ctx.ob('R2', fn, 'normalisation', None, 'division by the vector norm not found')
+    for n, v in quot:
+        l, r = v.bin[1], v.bin[2]
+        same = l.store == VEC and r.norm_of.store == VEC
+        over_xyz = r.norm_removed == ('xyz',)
+        aligned = l.axes is not None and r.axes is not None and len(r.axes) == len(l.axes) and r.axes[-1] in ('one', 'new') and r.axes[:-1] == l.axes[:-1]
+        known = l.axes is not None and r.axes is not None
+        ok = same and over_xyz and aligned
+        ctx.ob('R2', fn, n, True if ok else (False if known else None),
+               'vectors / |vectors| over xyz, broadcast along xyz' if ok else
                'normalisation does not divide each vector by its own length over the xyz axis')
     # symmetrize
     fs = ctx.fn(f'{OR}.symmetrize')
-    eins = [n for n in ast.walk(fs.node) if isinstance(n, ast.Call) and norm_text(n.func).endswith('einsum')]
+    its = ctx.entry(fs.qualname)
+    eins = uniq_events(its, {'einsum'}, under(fs.qualname))
     if not eins:
         ctx.ob('R2', fs, 'symmetrisation', None, 'einsum not found')
-    for n in eins:
-        spec = n.args[0].value if n.args and isinstance(n.args[0], ast.Constant) else None
+    for e in eins:
+        spec, ops = e['spec'], e['ops']
+        n = e['node']
         ok = None
         msg = 'einsum specification not a literal'
-        if isinstance(spec, str) and '->' in spec:
+        if isinstance(spec, str) and '->' in spec and len(ops) == 2:
             ins, out = spec.replace(' ', '').split('->')
-            a, b = ins.split(',')
-            # vectors: (t, b, i); ops: (row, col, op); result must end in the row index with col contracted with i
-            if len(a) == 3 and len(b) == 3:
-                vi = a[2]
-                row, col, op = b[0], b[1], b[2]
-                # pymatgen rotation_matrix transposed with (1, 2, 0): sym_ops[i, j, k] = R_k[i, j]; image = R v -> sum_j R[i, j] v[j]
-                contracted = vi in b and vi not in out
-                if contracted:
-                    free = [c for c in b if c != vi]
-                    other = [c for c in free if c != op]
-                    # for an orthogonal group contracting with the row or the column index yields the same set of images
-                    ok = (out[-1] == other[0] if other else False) and out[:2] == a[:2] and out[2] == op and vi in (row, col)
-                    msg = 'one image per operation, xyz last' if ok else (
-                        'output axes are not (time, bond, operation, xyz): the reshape then mixes components and operations')
-                else:
-                    ok, msg = False, 'the vector component index is not contracted with the operations'
-        ctx.ob('R2', fs, n, ok, msg)
-    resh = [n for n in ast.walk(fs.node) if isinstance(n, ast.Call) and isinstance(n.func, ast.Attribute) and n.func.attr == 'reshape'
-            and norm_text(n.func.value) != 'sym_ops']
-    for n in resh:
-        txt = [norm_text(a) for a in n.args]
-        ok = len(txt) == 3 and txt[0] == 'n_ts' and txt[2] == '3' and txt[1].replace(' ', '') in ('n_bonds*n_symops', 'n_symops*n_bonds')
-        ctx.ob('R2', fs, n, True if ok else None, 'merges (bond, operation) and keeps xyz last' if ok else 'reshape not recognised')
-    # transform
-    ft = ctx.fn(f'{OR}.transform')
-    dots = [n for n in ast.walk(ft.node) if isinstance(n, ast.Call) and norm_text(n.func).split('.')[-1] in ('dot', 'matmul', 'einsum')]
-    mats = [n for n in ast.walk(ft.node) if isinstance(n, ast.BinOp) and isinstance(n.op, ast.MatMult)]
-    if not dots and not mats:
-        ctx.ob('R2', ft, 'transform', None, 'matrix product not found')
-    for n in dots:
-        a = [norm_text(x) for x in n.args]
-        fnm = norm_text(n.func).split('.')[-1]
-        if fnm in ('dot', 'matmul') and len(a) == 2:
-            if a == ['self.vectors', 'matrix.T'] or a == ['self.vectors', 'matrix.transpose()'] or a == ['self.vectors', 'np.transpose(matrix)']:
-                ctx.ob('R2', ft, n, True, 'v . M^T = M v for every vector')
-            elif a == ['self.vectors', 'matrix']:
-                ctx.ob('R2', ft, n, False, 'dot(v, M) applies the transposed matrix to every vector')
+            parts = ins.split(',')
+            vec_pos = [k for k, o in enumerate(ops) if o.store == VEC]
+            if len(parts) == 2 and len(vec_pos) == 1:
+                a, b = parts[vec_pos[0]], parts[1 - vec_pos[0]]
+                # vectors: (t, b, i); ops: (row, col, op); result must end in the free matrix index with the other contracted with i
+                if len(a) == 3 and len(b) == 3:
+                    vi = a[2]
+                    row, col, op = b[0], b[1], b[2]
+                    contracted = vi in b and vi not in out
+                    if contracted:
+                        free = [c for c in b if c != vi]
+                        other = [c for c in free if c != op]
+                        # for an orthogonal group contracting with the row or the column index yields the same set of images
+                        ok = (out[-1] == other[0] if other else False) and out[:2] == a[:2] and out[2] == op and vi in (row, col)
+                        msg = 'one image per operation, xyz last' if ok else (
+                            'output axes are not (time, bond, operation, xyz): the reshape then mixes components and operations')
+                    else:
+                        ok, msg = False, 'the vector component index is not contracted with the operations'
             else:
-                ctx.ob('R2', ft, n, None, 'matrix product form not recognised')
+                msg = 'operand holding the bond vectors not identified'
+        ctx.ob('R2', fs, n, ok, msg)
+    resh = [n for n in ast.walk(fs.node) if isinstance(n, ast.Call) and isinstance(n.func, ast.Attribute) and n.func.attr == 'reshape']
+    for n in resh:
+        rv = its.value_of(n.func.value)
+        if rv is None or rv.einsum is None:
+            continue
+        elts = n.args[0].elts if (len(n.args) == 1 and isinstance(n.args[0], ast.Tuple)) else list(n.args)
+        txt = [its.sx(a).replace(' ', '') for a in elts]
+        if len(n.args) == 1 and not isinstance(n.args[0], ast.Tuple):
+            from .common import parse_sx
+            t_ = parse_sx(its.sx(n.args[0]), full=True)
+            txt = [norm_text(x).replace(' ', '') for x in t_.elts] if isinstance(t_, ast.Tuple) else txt
+        def is_prod(t):
+            fs_ = sorted(t.strip('()').split('*'))
+            return len(fs_) == 2 and 'self.vectors.shape[1]' in fs_ and any(x.endswith('.shape[2]') for x in fs_)
+        ok = len(txt) == 3 and txt[0] == 'self.vectors.shape[0]' and txt[2] == '3' and is_prod(txt[1])
+        ctx.ob('R2', fs, n, True if ok else None, 'merges (bond, operation) and keeps xyz last' if ok else 'reshape not recognised')
+    # transform: v . M^T = M v for every vector
+    ft = ctx.fn(f'{OR}.transform')
+    itt = ctx.entry(ft.qualname)
+    prods = uniq_events(itt, {'dot'}, under(ft.qualname))
+    if not prods:
+        ctx.ob('R2', ft, 'transform', None, 'matrix product not found')
+    for e in prods:
+        a, b = e['a'], e['b']
+        is_vec = a is not None and a.store == VEC
+        is_mat = b is not None and bool(b.is_param and b.is_param.endswith(':matrix') or (b.origin and any(o.endswith('.matrix') for o in b.origin)))
+        if is_vec and is_mat:
+            ctx.ob('R2', ft, e['node'], True if b.transposed else False, 'v . M^T = M v for every vector' if b.transposed else
+                   'dot(v, M) applies the transposed matrix to every vector')
         else:
-            ctx.ob('R2', ft, n, None, 'matrix product form not recognised')
-    for n in mats:
-        a = [norm_text(n.left), norm_text(n.right)]
-        ok = a == ['self.vectors', 'matrix.T']
-        ctx.ob('R2', ft, n, True if ok else (False if a == ['self.vectors', 'matrix'] else None), 'v @ M^T' if ok else 'applies the transposed matrix')
+            ctx.ob('R2', ft, e['node'], None, 'matrix product form not recognised')
 
 
 def check_spherical(ctx):
